@@ -26,13 +26,13 @@ def explore(ctx):
         for kind in gen.LOC_FAULTS:
             for context in gen.LOC_CONTEXTS:
                 forms, idx, marker = gen.located_fault_program(ctx.rng, kind, context)
-                text, extents = gen.layout_program(ctx.rng, forms)
+                text, extents, ends = gen.layout_program(ctx.rng, forms)
                 lines = ["NEW 0 std", "EVAL 0 " + h(text),
                          "FILE %s %s %s" % (h("prog"), h("main.scm"), h("(import (scheme base) (scheme write))\n" + text)),
                          "RUNBIN %s %s" % (h("prog"), h("main.scm")),
                          "FILE %s %s %s" % (h("prog"), h("crlf.scm"), h(("(import (scheme base) (scheme write))\n" + text).replace("\n", "\r\n"))),
                          "RUNBIN %s %s" % (h("prog"), h("crlf.scm"))]
-                cases.append({"lines": lines, "text": text, "extent": extents[idx], "marker": marker, "kind": kind,
+                cases.append({"lines": lines, "text": text, "extent": extents[idx], "marker": None if marker is None else ends[idx][marker], "kind": kind,
                               "context": context, "form": forms[idx]})
                 dist[kind + "/" + context] = dist.get(kind + "/" + context, 0) + 1
     # syntax errors that carry a location: at or before the offending token
@@ -42,7 +42,7 @@ def explore(ctx):
         forms, _ = g.program(ctx.rng.randint(1, 4), 2)
         bad = ctx.rng.choice([")", "#z", "\"unterminated", "(a . b . c)", "#\\", "1/0", "(define 5 1)"])
         forms.append(bad)
-        text, extents = gen.layout_program(ctx.rng, forms)
+        text, extents, _ = gen.layout_program(ctx.rng, forms)
         syn.append({"lines": ["NEW 0 std", "EVAL 0 " + h(text)], "text": text, "extent": extents[-1], "marker": None,
                     "kind": "syntax", "context": "direct", "form": bad})
     results, ndis = common.run_cases(ctx, cases + syn)
@@ -63,10 +63,7 @@ def explore(ctx):
         want = None
         if ok and c["marker"]:
             # the cursor position after the offending identifier / operator
-            pos = c["text"].find(c["marker"], offset_of(c["text"], s))
-            line = c["text"].count("\n", 0, pos) + 1
-            col = pos - (c["text"].rfind("\n", 0, pos) + 1) + 1 + len(c["marker"])
-            want = (line, col)
+            want = tuple(c["marker"])
             ok = loc == want
         if ok:
             inside += 1
